@@ -122,3 +122,55 @@ reserve_exact = Contract(
 )
 
 CONTRACTS = [can_route, add_network, is_available, mark_occupied, reserve_exact]
+
+# ---- TileGrid.rebuild_from_placements ---------------------------------------------------------------
+# After layout every placement carries its CENTRE; the grid must then hold exactly the tiles of every placed entity:
+# occupied = union of the footprint rectangles whose top-left tile is centre - footprint/2 (user-placed, multi-tile and
+# 1x1 alike).  Plan of two placements with concrete footprints; centres symbolic (proper centres: k + size/2).
+def _rebuild_post(fp1, fp2):
+    def post(a, res):
+        occ = a.self._occupied
+        p1, p2 = a.placements["p1"], a.placements["p2"]
+        t = z3.Const("t_rb", pair_sort())
+        def tile(p, fp):
+            return (z3.ToInt(p.position[0] - z3.RealVal(fp[0]) / 2), z3.ToInt(p.position[1] - z3.RealVal(fp[1]) / 2))
+        return z3.ForAll([t], z3.Select(occ.member, t) == z3.Or(_in_rect(t, tile(p1, fp1), fp1), _in_rect(t, tile(p2, fp2), fp2)))
+    return post
+
+
+def _proper_centres(fp1, fp2):
+    def req(a):
+        cs = []
+        for p, fp in ((a.placements["p1"], fp1), (a.placements["p2"], fp2)):
+            for i in (0, 1):
+                cs.append(z3.IsInt(p.position[i] - z3.RealVal(fp[i]) / 2))
+        return z3.And(*cs)
+    return req
+
+
+def _plc_t(fp, with_key):
+    props = ((("footprint", ty.TConcrete(fp)),) if with_key else ()) + (("user_specified_position", ty.Bool),)
+    return ty.TObj("EntityPlacement", only=("EntityPlacement",), ftypes=(("position", ty.TTuple((ty.Real, ty.Real))), ("properties", ty.TRecord(props))))
+
+
+def _mark_effect(ex, a):
+    occ = a.self._occupied
+    t = z3.Const("t_me", pair_sort())
+    new = z3.Array(__import__("pyvc.values", fromlist=["fresh_name"]).fresh_name("occ"), pair_sort(), z3.BoolSort())
+    ex.assume(z3.ForAll([t], z3.Select(new, t) == z3.Or(z3.Select(occ.member, t), _in_rect(t, a.tile_pos, a.footprint))))
+    occ.member = new
+    return None
+
+
+mark_callee = Contract(qualname=TG + "mark_occupied", params=_TG_PARAMS, effect=_mark_effect, verify=False,
+                       note="proved above (mark_occupied): occupied' = occupied + rectangle")
+
+for _fp1, _fp2, _k2 in (((2, 2), (1, 1), False), ((3, 3), (1, 2), True), ((1, 1), (2, 1), True)):
+    CONTRACTS.append(Contract(
+        qualname=TG + "rebuild_from_placements",
+        params={"self": ty.TObj("TileGrid"), "placements": ty.TRecord((("p1", _plc_t(_fp1, True)), ("p2", _plc_t(_fp2, _k2))))},
+        requires=[("grid exists", lambda a: a.self._occupied is not None), ("positions are proper centres", _proper_centres(_fp1, _fp2))],
+        ensures=[("occupied = exactly the footprint rectangles of the placed entities (top-left = centre - footprint/2)", _rebuild_post(_fp1, _fp2))],
+        uses={"TileGrid.mark_occupied": mark_callee},
+        dynamic_types={"self": _TG_T}, properties=("C08",), min_obligations=1, no_replay=True, note=f"footprints {_fp1} and {_fp2}"))
+CONTRACTS.append(mark_callee)
